@@ -512,7 +512,7 @@ Section TMidA.
     (forall i j, lo <= i -> i <= j -> j < hi -> tword_of recs i <= tword_of recs j) ->
     (forall i, lo <= i < hi -> tword_of recs i <= t_max_vocab m) -> 0 <= word <= t_max_vocab m -> hi - lo <= 2 ^ 32 ->
     (Z.of_nat fuel >= Z.max 1 (hi - lo + 1)) ->
-    exists res, tmidA_find m fuel (length nexts) tstA word lo hi = Some res /\
+    exists res, tmidA_find m fuel tstA word lo hi = Some res /\
       match res with
       | Some (p, prob, bo, cb, ce) => lo <= p < hi /\ tword_of recs p = word /\ prob = sign_on (tprob_of recs p mod 2 ^ 31) /\
                                       bo = tbo_of recs p /\ cb = tnextA p /\ ce = tnextA (p + 1)
@@ -531,14 +531,14 @@ Section TMidA.
     destruct Href as [res [Hfind Hres]]; try assumption.
     - intros i j Hi Hij Hj. rewrite !Ew. apply Hsw; assumption.
     - intros i Hi. rewrite Ew. apply Hle. exact Hi.
-    - unfold tmidA_find. pose proof tinls_are_low as Hin. rewrite tstA_split in Hin |- *. cbn [fst] in Hin.
-      rewrite Hfind. destruct res as [[[[[p prob] bo] cb0] ce0]|].
-      + destruct Hres as [Hp [Hwp [Hpr [Hbo _]]]].
-        rewrite Hin.
-        assert (Est : (fst (bhiksha_write b nexts), map (low b) nexts) = bhiksha_write b nexts).
-        { rewrite (write_spec b ltac:(unfold b; lia) nexts Hsorted Hnonneg). reflexivity. }
-        fold b. rewrite Est.
-        rewrite (read_after_write b ltac:(unfold b; lia) nexts p Hsorted Hnonneg ltac:(lia)) by (rewrite tnexts_len; unfold n in *; lia).
+    - unfold tmidA_find. rewrite tstA_split. rewrite Hfind. destruct res as [[[[[p prob] bo] cb0] ce0]|].
+      + destruct Hres as [Hp [Hwp [Hpr [Hbo [Hcb Hce]]]]].
+        rewrite Hcb, Hce, !tlrecs_next by lia.
+        pose proof (f_equal snd (write_spec b ltac:(unfold b; lia) nexts Hsorted Hnonneg)) as Hws. cbn [snd] in Hws.
+        pose proof (read_after_write b ltac:(unfold b; lia) nexts p Hsorted Hnonneg ltac:(lia) ltac:(rewrite tnexts_len; unfold n in *; lia)) as Hraw.
+        rewrite read_next_as_2, Hws in Hraw. unfold tnextA in *.
+        change 0 with (low b 0) in Hraw at 1 2. rewrite !map_nth in Hraw.
+        cbn [fst]. fold b. rewrite Hraw.
         eexists. split; [reflexivity|]. rewrite Ew in Hwp. rewrite Ep in Hpr. rewrite Eb in Hbo.
         split; [exact Hp|]. split; [exact Hwp|]. split; [exact Hpr|]. split; [exact Hbo|]. split; reflexivity.
       + eexists. split; [reflexivity|]. intros i Hi. rewrite <- Ew. apply Hres. exact Hi.
